@@ -6,6 +6,7 @@ import ast
 import keyword
 import re
 
+from sa import av as _av
 from sa import pm, tm
 from sa.core import Ctx
 from sa.sm import call_kw, const_str, dotted, find_calls, fstring_skeleton, norm, walk_no_nested
@@ -24,7 +25,11 @@ def reserved_names(ctx: Ctx) -> dict[str, str]:
             f = T.func(short, fn)
             if f is None:
                 continue
-            for sk in tm.returned_skeletons(f):
+            try:
+                sks = [T.skeleton(short, fn, {"nan_to_num": _av.C(False)} if fn == "method" and short.endswith("python.py") else None)]
+            except tm.Undecided:
+                sks = tm.returned_skeletons(f)
+            for sk in sks:
                 try:
                     tree = tm.py_parse(sk)
                 except Exception:
